@@ -58,7 +58,7 @@ pub fn scenarios(_cfg: &str) -> Vec<Vec<Ev>> {
 type Fut<M> = GenericWaitForEventFuture<'static, M>;
 
 pub struct EventCore<M: RawMutex + 'static> {
-    event: &'static GenericManualResetEvent<M>,
+    owner: crate::util::Leaked<GenericManualResetEvent<M>>,
     is_set: bool,
     slots: Slots<Fut<M>>,
     serial: Serial,
@@ -70,7 +70,7 @@ impl<M: RawMutex + LockName + 'static> EventCore<M> {
     fn post(&mut self, ctx: &mut Ctx) {
         let mut regs = vec![];
         self.slots.regs(&mut regs);
-        let event = self.event;
+        let event: &'static GenericManualResetEvent<M> = self.owner.get();
         let slots = &self.slots;
         self.view = inspect_and_check(ctx, Shape::List, regs, &mut |v| event.verif_inspect(v), &mut |r| slots.node_info(r.slot as usize));
         if let Some(s) = call(ctx, "is_set", 0, 0, || event.is_set()) {
@@ -101,9 +101,11 @@ impl<M: RawMutex + LockName + 'static> EventCore<M> {
 impl<M: RawMutex + LockName + 'static> Core for EventCore<M> {
     fn new(cfg: &str, k: usize, _bounded: bool) -> Self {
         let init = cfg_num(cfg, "init", 0) == 1;
-        let event: &'static GenericManualResetEvent<M> = Box::leak(Box::new(GenericManualResetEvent::new(init)));
+        let owner = crate::util::Leaked::new(GenericManualResetEvent::new(init));
+        let event: &'static GenericManualResetEvent<M> = owner.get();
+        let _ = event;
         let mut c = EventCore {
-            event,
+            owner,
             is_set: init,
             slots: Slots::new(k, 0),
             serial: Serial(0),
@@ -154,7 +156,7 @@ impl<M: RawMutex + LockName + 'static> Core for EventCore<M> {
 
     fn step(&mut self, ev: Ev, ctx: &mut Ctx) {
         let a = ev.a as usize;
-        let event = self.event;
+        let event: &'static GenericManualResetEvent<M> = self.owner.get();
         match ev.k {
             CREATE => self.slots.create(a, &mut self.serial, ctx, 0, || event.wait()),
             POLL => {
@@ -226,9 +228,9 @@ impl<M: RawMutex + LockName + 'static> Core for EventCore<M> {
         }
         self.post(ctx);
         let empty = self.view.queues[0].is_empty() && self.view.prim.head == 0 && self.view.prim.tail == 0;
-        ctx.check("C01", "queue-empty-after-all-futures-dropped", true, empty, || "wait queue not empty at the end of the history".into());
+        ctx.check("C01", "queue-empty-after-all-futures-dropped", crate::slots::inspect_on(), empty, || "wait queue not empty at the end of the history".into());
         // Safety: no future borrows the event any more
-        unsafe { drop(Box::from_raw(self.event as *const _ as *mut GenericManualResetEvent<M>)) };
+        unsafe { self.owner.reclaim() };
     }
 }
 
